@@ -96,3 +96,13 @@ _p('C29', secs=(20, 300), runs=(100000, 10000000),
     assumptions=['no fault or schedule dimension in the statement: the simulator contributes controlled directory state, recorded file-system calls, generated histories and the sanitised build', 'compressed logs (.gz names) not exercised'] + COMMON_ASSUME[1:],
     level_text='seeded exploration of rotation counts and generation sets; oracle: generation shift model with cap 1024, decoys untouched, every rename issued stays inside the generation set, append-mode logs not rotated unless forced, no sanitizer/assertion abort for any count',
     level_note='trusted: reference generation model (sequential shift of existing generations), recorded calls; out-of-bounds reads inside vector capacity are caught by _GLIBCXX_ASSERTIONS, others by ASan')
+
+_p('C15', secs=(25, 420), runs=(200000, 20000000), mix=(4, 8),
+    title='Socket reader frames the byte stream exactly',
+    technique='deterministic simulation with fault injection: real FIXReader/Connection threads on a simulated socket (seeded chunking, short reads, 1-byte dribble, EAGAIN bursts, delays, EOF at a seeded byte offset, corrupted preambles) under the seeded scheduler; the strings handed to Session::process are compared with the stream that was sent',
+    rule='one evaluation = one seeded stream of 1-16 (thorough 1-40) framed messages with bodies of 12..8172 bytes containing look-alikes of the framing fields, one chunking profile (per message, whole, random cuts, cuts at the preamble/BodyLength/checksum boundaries, 1-byte dribble), transport faults, process model threaded/pipelined/coroutine; 40% of the runs corrupt the preamble of one message (10 kinds), 30% end the stream by EOF at a seeded offset; non-trivial = at least one complete message expected and at least 2 chunks; distinct = distinct event-log hash',
+    real=['FIX8::FIXReader::read/sockRead/execute/callback_processor', 'FIX8::Connection/ServerConnection start/stop', 'FastFlow queue + callback thread (pipelined model)', 'Session::start/stop, Timer thread'],
+    stub=['Session::process overridden by a recorder (the observation point of the property)', 'socket: SimSock (Poco::Net::StreamSocketImpl subclass)'],
+    assumptions=COMMON_ASSUME + ['pipelined connections are judged at quiescence and never torn down inside a run (FIXWriter::stop() pushes NULL into the FastFlow queue, which asserts); their workers are recycled', 'after a corrupted preamble only "nothing corrupted is handed on, reader stops" is demanded; in the pipelined model messages still queued at EOF may be dropped with the connection'],
+    level_text='seeded exploration of streams x chunkings x transport faults x interleavings; byte-exact comparison of what the session is handed; sanitizer aborts count as violations',
+    level_note='trusted: SimSock semantics (TCP-like FIFO byte stream), kernel; message bodies are arbitrary bytes with valid framing (the reader does not decode beyond the preamble)')
